@@ -51,6 +51,10 @@ def _shard(args):
     return c07_extract.run_shard(args)
 
 
+WIDE_QUICK = (100,)            # harness/c07_layout.wide on top of shared layout 0
+WIDE_THOROUGH = (100, 101, 103, 104)
+
+
 def trace_specs(ctx, what, rounds, base=0):
     """(trace id, program, variant, seed, what) for every corpus program x layout variant, `rounds` times with different
     seeds (each round draws other option sets / entry points / slices / texts)."""
@@ -62,7 +66,7 @@ def trace_specs(ctx, what, rounds, base=0):
     specs = []
     tid = base
     for r in range(rounds):
-        for v in range(layouts.N_VARIANTS):
+        for v in list(range(layouts.N_VARIANTS)) + list(WIDE_QUICK if ctx.quick else WIDE_THOROUGH):
             for p in range(len(PROGRAMS)):
                 tid += 1
                 specs.append((tid, p, v, rng.randrange(1 << 30), what))
